@@ -40,7 +40,8 @@ def cases(draw, max_size=14):
                  "A_log_scale": draw(st.floats(-2, 2)),
                  "err_log": [draw(st.floats(-2.5, 0.5)) for _ in range(m)],
                  "resid": [draw(st.floats(-3, 3)) for _ in range(m)],
-                 "truth": [draw(st.floats(-2, 2)) for _ in range(p)]})
+                 "truth": [draw(st.floats(-2, 2)) for _ in range(p)],
+                 "theta_form": draw(st.sampled_from(["float", "float", "float", "int64", "int32"]))})
     return base
 
 
@@ -73,7 +74,18 @@ def build(case):
     sig_scale = ys * (np.sqrt(np.sum(A**2, axis=1)) + 10.0 ** case["A_log_scale"] * 1e-3)
     y_err = sig_scale * 10.0 ** np.array(case["err_log"])
     y = A @ (ys * np.array(case["truth"])) + y_err * np.array(case["resid"])
+    if case.get("theta_form", "float") != "float":
+        # whole-number hyper-parameters (which a caller may hold in an integer array)
+        kinds = rk.param_kinds(spec, p, case["d"])
+        rc = np.round(th_cov)
+        if all(rc[i] > 0 for i, k in enumerate(kinds) if k == "width") and np.all(np.abs(rc) < 2**31) and np.all(np.abs(np.round(th_mean)) < 2**31):
+            th_cov, th_mean = rc, np.round(th_mean)
     return X, A, y, y_err, spec, th_cov, th_mean
+
+
+def theta_arg(case, theta):
+    form = case.get("theta_form", "float")
+    return theta.copy() if form == "float" or not np.array_equal(theta, np.round(theta)) else theta.astype(form)
 
 
 def rank_deficient(A):
@@ -143,10 +155,10 @@ def body_posterior(case, ctx):
     inv = make(case, X, A, y, y_err, spec)
     tag = shape_tag(A)
     with np.errstate(all="ignore"):
-        mu, Sig = inv.calculate_posterior(theta)
-        mu_only = inv.calculate_posterior_mean(theta)
-        lml = float(inv.marginal_likelihood(theta))
-        lml_g, _ = inv.marginal_likelihood_gradient(theta)
+        mu, Sig = inv.calculate_posterior(theta_arg(case, theta))
+        mu_only = inv.calculate_posterior_mean(theta_arg(case, theta))
+        lml = float(inv.marginal_likelihood(theta_arg(case, theta)))
+        lml_g, _ = inv.marginal_likelihood_gradient(theta_arg(case, theta))
     mu, Sig, mu_only = (np.asarray(a, dtype=float) for a in (mu, Sig, mu_only))
     p = A.shape[1]
     if mu.shape != (p,) or Sig.shape != (p, p) or mu_only.shape != (p,):
@@ -220,8 +232,8 @@ def body_gradient(case, ctx):
     inv = make(case, X, A, y, y_err, spec)
     tag = shape_tag(A)
     with np.errstate(all="ignore"):
-        val, grad = inv.marginal_likelihood_gradient(theta)
-        pv = float(inv.marginal_likelihood(theta))
+        val, grad = inv.marginal_likelihood_gradient(theta_arg(case, theta))
+        pv = float(inv.marginal_likelihood(theta_arg(case, theta)))
     grad = np.asarray(grad, dtype=float)
     if grad.shape != (theta.size,):
         raise Violation(f"gradient-shape:{tag}", f"gradient shape {grad.shape} for {theta.size} hyper-parameters")
@@ -254,6 +266,7 @@ def body_gradient(case, ctx):
     ctx.nontrivial((m != p or rank_deficient(A)) and theta.size >= 3)
     ctx.event("shape=" + tag)
     ctx.event("mean=" + case["mean"])
+    ctx.event("theta-form=" + (case.get("theta_form", "float") if np.array_equal(theta, np.round(theta)) else "float"))
 
 
 # ------------------------------------------------------------------ histories on one inverter object
